@@ -490,6 +490,10 @@ def _families(col, crate, adt, targets, sfx, modes=None, assign_of=None, A=None)
         sem = _pow_semantic(crate, powb)
         if sem is True:
             ok3 = True
+    # paths that return without running the loop (fast paths) must be the power they stand for
+    why_fast = _pow_fast_paths(crate, powb)
+    if why_fast:
+        ok3, why3 = False, why_fast
     if ok3:
         col.ok("M2" + sfx, powb.loc(), "%s|square-and-multiply" % fk(powb), "res = ONE, a = *self, d = argument; loop: if d odd { res *= a }; a *= a; d /= 2 while d != 0")
         col.obligation(True)
@@ -637,6 +641,44 @@ def _pow_semantic(crate, powb):
         if not any(f[0] == "eq" and isinstance(f[1], tuple) and f[1] and f[1][0] == "bin" and f[1][2] == ph(d_l) and f[1][3] == mk_int(0) and ((f[1][1] == "Ne" and f[2] == 0) or (f[1][1] == "Eq" and f[2] == 1)) for f in st.facts):
             return False
     return True
+
+
+def _pow_fast_paths(crate, powb):
+    """A return of pow that does not come out of the square-and-multiply loop is a fast path; it is sound only
+    as  x^1 = x  (returns *self under the fact d == 1),  x^0 = 1  (returns ONE under d == 0),  1^d = 1  (returns
+    *self or ONE under self == 1).  In particular `self <= 1 => *self` is wrong: 0^0 is the empty product 1.
+    Returns the reason of the first unsound fast path, or None."""
+    helpers = [m for m in crate.bodies if not m.is_closure and m.kind in ("Fn", "AssocFn") and m.vis != "pub" and not util.self_recursive(m)]
+    I = util.analyser(helpers, features=("fncall", "comb"))(powb)
+    selfp = ("deref", ("param", 1, I.names.get(1)))
+    selfv = ("load", ("m0",), selfp)
+    v0 = ("load", ("m0",), ("field", selfp, 0))
+    d = ("param", 2, I.names.get(2))
+
+    def known_eq(st, t, k):
+        for f in st.facts:
+            x = f[1]
+            if f[0] == "eq" and x == t and f[2] == k and not isinstance(f[2], bool):
+                return True
+            if f[0] == "eq" and isinstance(x, tuple) and x and x[0] == "bin" and {x[2], x[3]} == {t, mk_int(k)}:
+                if (x[1] == "Eq" and f[2] == 1) or (x[1] == "Ne" and f[2] == 0):
+                    return True
+        return False
+
+    def is_one(r):
+        return isinstance(r, tuple) and r and ((r[0] == "assoc" and r[2] == "ONE") or (r[0] == "agg" and r[2] == (mk_int(1),)))
+
+    for st in I.final_states:
+        if any(e.kind == "loop" for e in st.event_list()):
+            continue
+        r = util.ret_term(st)
+        if r == selfv and (known_eq(st, d, 1) or known_eq(st, v0, 1)):
+            continue
+        if is_one(r) and (known_eq(st, d, 0) or known_eq(st, v0, 1)):
+            continue
+        from ..absint import tstr as _t
+        return "a fast path returns %s without the loop on a path that does not establish d == 1 (x^1 = x), d == 0 (x^0 = 1) or self == 1: e.g. 0^0 must be 1" % _t(r)[:80]
+    return None
 
 
 def _trivial_inverse_path(I, st):
